@@ -4,7 +4,8 @@ Property theorems only (lemmas in Proofs/Engine, Proofs/ExprHom, Proofs/ExprReal
 
 Model: `Model/Expr.lean` (DAG of nodes, three node semantics), `Model/IdManager.lean`
 (`prepare`), `Model/Engine.lean` (`get_signature` serialisation, engine loader "first definition
-wins", evaluation on the input vectors).
+wins", evaluation on the input vectors), `Model/Sig.lean` (the signature *text*: the per-class
+writers of `get_signature`, and the reader of the engine after `bioFormula::processFormula`).
 -/
 import Model.Expr
 import Model.Engine
@@ -13,6 +14,8 @@ import Proofs.ExprHom
 import Proofs.ExprReal
 import Proofs.IdManager
 import Proofs.PyAgree
+import Model.Sig
+import Proofs.Sig
 
 open Expr Engine
 
@@ -203,6 +206,47 @@ theorem pyEval_unsupported {α} [NumOps α] (n : Node α) (env : Env α) (rs : L
   obtain ⟨k, c, nm, v, ks, ms, f⟩ := n
   rcases h with h | h | h | h <;> (simp only at h; subst h; rfl)
 
+/-- **The engine's reader inverts the Python writer, character by character — every name.**
+For every line whose layout can carry its children (`arityOK`) and whose literals are read back
+by the engine's `stod` as the doubles Python's `str` wrote: parsing the text `get_signature`
+writes — with the engine's own `extractParentheses` (blanking between quotes, bracket matching),
+`split` on commas of the whole line and `stoi` — gives back exactly the fields the line
+carries.  No hypothesis on names: `Elementary.signature_name` (commit `d509bfb`) replaces the
+two characters the reader cannot carry, `Sig.sanitize_ok`. -/
+theorem text_roundtrip {α} [NumOps α] (txt : α → List Char) (numOf : List Char → Option α)
+    (info : Nat → Nat × List Char) (l : SigLine α) (h : Sig.TextWF txt numOf l) :
+    Sig.parseLine numOf (Sig.renderLine txt info l) = some (Sig.canon l) :=
+  Sig.parse_render txt numOf info l h
+
+/-- … and the fields the text does not carry are not used by the engine: loading the parsed
+line is loading the line. -/
+theorem text_carries_all {α} [NumOps α] (s : Store α) (l : SigLine α) (h : Sig.arityOK l = true) :
+    loadLine s (Sig.canon l) = loadLine s l :=
+  Sig.loadLine_canon s l h
+
+/-- **The engine path through the text is the engine path** (hence, by `engine_correct` and
+`engine_value`, the value of the formula): serialise, *write the bytes*, let the engine *read
+the bytes*, load, evaluate. -/
+theorem engine_reads_text {α} [NumOps α] (txt : α → List Char) (numOf : List Char → Option α)
+    (info : Nat → Nat × List Char) (t : IdM.Table String) (d : Dag α) (k : Nat) (ee : EngEnv α)
+    (hwf : ∀ j n, d[j]? = some n → Sig.TextWF txt numOf (lineOf t j n)) :
+    Sig.runText txt numOf info t d k ee = run t d k ee :=
+  Sig.runText_eq_run txt numOf info t d k ee hwf
+
+/-- Why the writer must replace these characters (defect F-E7, repaired by `d509bfb`): the
+reader splits the *whole* line on commas, so for a data column written as `x,1` (elementary
+index 1, column 0) it reads column 1. -/
+theorem comma_in_name_misread :
+    (Sig.parseLine (α := Float) (fun _ => none) "<Variable>{12}\"x,1\",1,0".toList).map
+      (fun l => (l.name, l.uid, l.slot)) = some ("x,1", 1, 1) := by
+  decide
+
+/-- a quotation mark inside the name of a parameter makes its line unreadable ("Open parenthesis
+not found") -/
+theorem quote_in_name_unreadable :
+    (Sig.parseLine (α := Float) (fun _ => none) "<Beta>{12}\"b\"2\"[0],1,1".toList).isNone = true := by
+  decide
+
 /-! ### non-vacuity: a shared sub-formula, evaluated on the three paths -/
 
 /-- (b + x) * (b + x) with the sum shared, b free = 2, x = 3 -/
@@ -214,5 +258,13 @@ def exDag : Dag Float :=
 def exTable : IdM.Table String := { free := ["b"], fixed := [], rvs := [], draws := [], cols := ["x"] }
 
 example : wfB exDag = true ∧ namesOKB exTable exDag = true := by decide
+
+/-- the hypotheses of `text_roundtrip` are satisfiable: the line of the parameter `b` -/
+example : Sig.TextWF (fun _ : Float => ['7']) (fun _ => some 2.0)
+    (lineOf exTable 0 { kind := .beta, name := "b,\"1", value := 2.0 }) := by
+  refine ⟨rfl, ?_⟩
+  rintro v (rfl | h)
+  · exact ⟨by decide, rfl⟩
+  · cases h
 
 end C01
